@@ -157,4 +157,61 @@ P_C02_Decl(crate, inp, mi, di) ==
        /\ IsSome(d.align) => l.align = d.align
        /\ d.packed => l.align = 1
 
+(* ------------------------- C04: vftable slots -------------------------- *)
+(* slot of each declared function: its #[index], else predecessor + 1     *)
+RECURSIVE DeclSlotsFrom(_, _, _)
+DeclSlotsFrom(fs, prev, acc) ==
+  IF fs = <<>> THEN acc
+  ELSE LET i == IF IsSome(Head(fs).index) THEN Head(fs).index ELSE prev + 1
+       IN DeclSlotsFrom(Tail(fs), i, Append(acc, i))
+DeclSlots(vft) == DeclSlotsFrom(vft.funcs, 0 - 1, <<>>)
+
+(* a declared index below its natural position, or a declared size below  *)
+(* the last slot, contradicts the positions                                *)
+ContradictoryVft(vft) ==
+  LET sl == DeclSlots(vft)
+      n == Len(sl)
+  IN \/ \E k \in 1..n : sl[k] < 0
+     \/ \E k \in 2..n : sl[k] <= sl[k - 1]
+     \/ (IsSome(vft.size) /\ vft.size < 0)
+     \/ (IsSome(vft.size) /\ n > 0 /\ vft.size <= sl[n])
+
+TableLen(vft) ==
+  LET sl == DeclSlots(vft)
+      n == Len(sl)
+      last == IF n = 0 THEN 0 ELSE sl[n] + 1
+  IN IF IsSome(vft.size) THEN Max(last, vft.size) ELSE last
+
+(* C16 *)
+DeclCC(f) == IF f.cc # "" THEN f.cc
+             ELSE IF \E i \in DOMAIN f.args : f.args[i].k \in {"cself", "mself"} THEN "thiscall"
+             ELSE "system"
+
+(* the table the property prescribes: per slot the declared function or a *)
+(* placeholder                                                             *)
+ExpectedTable(vft) ==
+  LET sl == DeclSlots(vft)
+  IN [i \in 1..TableLen(vft) |->
+        IF \E k \in DOMAIN sl : sl[k] = i - 1
+        THEN LET k == CHOOSE j \in DOMAIN sl : sl[j] = i - 1
+             IN [pad |-> FALSE, name |-> vft.funcs[k].name, cc |-> DeclCC(vft.funcs[k]),
+                 nargs |-> Len(vft.funcs[k].args), hasret |-> vft.funcs[k].ret # TNone,
+                 vis |-> vft.funcs[k].vis]
+        ELSE [pad |-> TRUE, name |-> "", cc |-> "thiscall", nargs |-> 1, hasret |-> FALSE, vis |-> "priv"]]
+
+(* P_C04 on an emitted <T>Vftable struct `it` (abstract item) and the     *)
+(* compiler's layout `l` of it                                             *)
+P_C04_Table(vft, it, l, ptr) ==
+  LET ex == ExpectedTable(vft)
+  IN /\ Len(it.fields) = Len(ex)
+     /\ \A i \in DOMAIN ex :
+          /\ it.fields[i].ty.k = "fn"
+          /\ ex[i].pad \/ it.fields[i].name = ex[i].name
+          /\ ex[i].pad => (it.fields[i].vis = "priv" /\ \A k \in DOMAIN vft.funcs : it.fields[i].name # vft.funcs[k].name)
+          /\ it.fields[i].ty.cc = ex[i].cc
+          /\ Len(it.fields[i].ty.args) = ex[i].nargs
+          /\ (it.fields[i].ty.ret # TNone) = ex[i].hasret
+          /\ l.offs[i] = (i - 1) * ptr
+     /\ l.size = Len(ex) * ptr
+
 =============================================================================
